@@ -82,6 +82,8 @@ func genHdr(r *rand.Rand, c cfgIn, seq uint16, shape int) hdrIn {
 
 var payLens = []int{0, 1, 2, 3, 100, 1199, 1200, 1459, 1460}
 
+var bigLens = []int{1461, 1462, 1500, 1800}
+
 func genPkt(r *rand.Rand, c cfgIn, seq uint16, shape int) pktIn {
 	p := pktIn{H: genHdr(r, c, seq, shape), Fill: r.Intn(1 << 20)}
 	switch r.Intn(3) {
@@ -92,6 +94,25 @@ func genPkt(r *rand.Rand, c cfgIn, seq uint16, shape int) pktIn {
 	default:
 		p.PLen = r.Intn(64)
 	}
+	if r.Intn(14) == 0 { // above what the responder's packet factory accepts
+		p.PLen = bigLens[r.Intn(len(bigLens))]
+	}
+	if p.H.Padding && r.Intn(3) == 0 {
+		// legacy padding form: PaddingSize 0, the count is the last payload byte
+		p.H.PadSize = 0
+		count := 0
+		switch {
+		case p.PLen == 0:
+		case r.Intn(3) == 0: // count above the payload length
+			count = p.PLen + 1 + r.Intn(5)
+			if count > 255 {
+				count = 255
+			}
+		default:
+			count = 1 + r.Intn(min(p.PLen, 255))
+		}
+		p.Legacy = count + 1
+	}
 
 	return p
 }
@@ -101,13 +122,36 @@ var libKinds = []int{0, 1, 2, 3, 4, 5, 6, 7, 8, 9, 10, 11, 12, 13, 14}
 func genMember(r *rand.Rand, kind int, depth int) memberIn {
 	m := memberIn{Kind: kind, Var: r.Intn(12)}
 	switch kind {
+	case 10, 11:
+		if r.Intn(2) == 0 {
+			m.Opt = 1<<13 | r.Intn(256) | r.Intn(32)<<8
+			if r.Intn(2) == 0 {
+				m.Opt |= 2 // receiver reports rejected
+			}
+		}
+	case 1:
+		if r.Intn(4) == 0 {
+			m.Opt = 1 + r.Intn(2)
+		}
+	case 3, 4, 7, 9:
+		if r.Intn(3) == 0 {
+			m.Opt = 1
+		}
+	}
+	switch kind {
 	case 2:
 		m.Params = []int{r.Intn(2)}
+		if r.Intn(4) == 0 {
+			m.Opt = 1 + r.Intn(2)
+		}
 	case 13:
 		nm := []int{1, 2, 3, 5}[r.Intn(4)]
 		m.Params = []int{nm, 1 + r.Intn(nm)}
 		if m.Params[1] > 2 {
 			m.Params[1] = 2
+		}
+		if r.Intn(3) == 0 {
+			m.Opt = 1
 		}
 	case 14, 15:
 		if r.Intn(2) == 0 {
@@ -280,7 +324,7 @@ func genCase(r *rand.Rand, bucket string) caseIn { //nolint:cyclop,gocognit
 	nc := r.Intn(5)
 	for i := 0; i < nc; i++ {
 		op := readIn{AIn: r.Intn(2), Trunc: -1, AMode: []int{0, 0, 0, 1, 2}[r.Intn(5)]}
-		n := 1 + r.Intn(3)
+		n := 1 + r.Intn(4)
 		for j := 0; j < n; j++ {
 			op.RTCP = append(op.RTCP, kinds[r.Intn(len(kinds))])
 		}
@@ -293,12 +337,12 @@ func genCase(r *rand.Rand, bucket string) caseIn { //nolint:cyclop,gocognit
 		in.CReads = append(in.CReads, op)
 	}
 	// RTCP writes
-	ncw := r.Intn(4)
+	ncw := r.Intn(5)
 	for i := 0; i < ncw; i++ {
 		w := cwriteIn{}
-		n := 1 + r.Intn(2)
+		n := 1 + r.Intn(4)
 		for j := 0; j < n; j++ {
-			w.Kinds = append(w.Kinds, []int{202, 203, 206, 201}[r.Intn(4)])
+			w.Kinds = append(w.Kinds, kinds[r.Intn(len(kinds))])
 		}
 		rp := respIn{N: r.Intn(500)}
 		if r.Intn(4) == 0 {
@@ -306,6 +350,61 @@ func genCase(r *rand.Rand, bucket string) caseIn { //nolint:cyclop,gocognit
 		}
 		w.Resp = []respIn{rp, {N: 1}}
 		in.CWrites = append(in.CWrites, w)
+	}
+
+	return in
+}
+
+// chains with one responder above a tap and members that see its retransmissions
+// (flexfec / packetdump / stats / report sender / twcc header extension / rtpfb), NACKs for
+// packets that were written: differential replay of the injection theorem
+func genInject(r *rand.Rand) caseIn {
+	in := caseIn{Cfg: genCfg(r), Note: "inject", Inject: true}
+	in.Cfg.Nack = true
+	if in.Cfg.TwccID > 14 {
+		in.Cfg.TwccID = 1 + r.Intn(14)
+	}
+	c := in.Cfg
+	below := []int{11, 13, 9, 4, 6, 8, 15, 0, 13, 11}
+	stats := false
+	for i, n := 0, r.Intn(4); i < n; i++ {
+		k := below[r.Intn(len(below))]
+		if k == 9 {
+			if stats {
+				k = 15
+			}
+			stats = true
+		}
+		in.Members = append(in.Members, genMember(r, k, 0))
+	}
+	in.Members = append(in.Members, memberIn{Kind: 15})
+	resp := genMember(r, 2, 0)
+	if resp.Opt == 2 {
+		resp.Opt = 1
+	}
+	in.Members = append(in.Members, resp)
+	for i, n := 0, r.Intn(3); i < n; i++ {
+		k := []int{11, 4, 6, 8, 15, 0, 1, 3, 5, 7, 10, 12, 14}[r.Intn(13)]
+		in.Members = append(in.Members, genMember(r, k, 0))
+	}
+	nw := 3 + r.Intn(6)
+	seq := uint16(r.Intn(65536)) //nolint:gosec
+	if r.Intn(4) == 0 {
+		seq = uint16(65533 + r.Intn(3)) //nolint:gosec
+	}
+	for i := 0; i < nw; i++ {
+		p := genPkt(r, c, seq, -1)
+		p.H.SSRC = c.SSRC
+		seq++
+		w := writeIn{Pkt: p}
+		for j := 0; j < 4; j++ {
+			w.Resp = append(w.Resp, respIn{N: r.Intn(3000)})
+		}
+		in.Writes = append(in.Writes, w)
+	}
+	for i, n := 0, 1+r.Intn(2); i < n; i++ {
+		s := in.Writes[r.Intn(nw)].Pkt.H.Seq
+		in.Nacks = append(in.Nacks, []uint16{s, s + 1, s + 3})
 	}
 
 	return in
@@ -395,6 +494,10 @@ func main() {
 			}
 			add(genCase(r, b), b)
 		}
+		ni := o.Scale(150, 4000)
+		for i := 0; i < ni; i++ {
+			add(genInject(r), "inject")
+		}
 		ns := o.Scale(12, 400)
 		for i := 0; i < ns; i++ {
 			for _, c := range sweep(r) {
@@ -430,8 +533,10 @@ func main() {
 		set.Cases = append(set.Cases, res.toCase())
 	}
 	extra := map[string]interface{}{"members_by_kind": hist}
-	cq.Write(o, "one case = one chain (0..8 members drawn from all library factories, mock members and nested chains) with RTP writes, "+
-		"RTP reads, RTCP reads, RTCP writes against a scripted transport; non-trivial = at least one member and one operation",
+	cq.Write(o, "one case = one chain (0..8 members drawn from all library factories incl. function-valued options, mock members and nested chains) with RTP writes "+
+		"(legacy padding form and payloads above 1460 bytes included), RTP reads, RTCP reads, RTCP compound writes against a scripted transport, "+
+		"every handed-in object re-read after the call and after Close; 'inject' cases tap a responder's retransmissions; "+
+		"non-trivial = at least one member and one operation",
 		[]*cq.Set{set}, extra, fails)
 	_ = os.Stdout
 }
@@ -507,6 +612,38 @@ func shapeBuckets(res *result) []string {
 	}
 	if len(in.Nacks) > 0 {
 		put("nack-resend")
+	}
+	if len(res.iobs) > 0 {
+		put("inject:replayed")
+	}
+	for _, o := range res.iobs {
+		if len(o.calls) > 1 {
+			put("inject:fec-follows")
+		}
+	}
+	for _, w := range in.Writes {
+		if w.Pkt.Legacy > 0 {
+			put("w:legacy-padding")
+			if w.Pkt.PLen > 0 && w.Pkt.Legacy-1 > w.Pkt.PLen {
+				put("w:legacy-padding-overflow")
+			}
+		}
+		if w.Pkt.PLen > 1460 {
+			put("w:payload>1460")
+		}
+	}
+	for _, w := range in.CWrites {
+		if len(w.Kinds) >= 2 {
+			put("cw:compound")
+		}
+	}
+	for _, m := range flatten(in.Members) {
+		if m.Opt != 0 {
+			put("opt:" + kindName(m.Kind))
+		}
+		if (m.Kind == 10 || m.Kind == 11) && m.Opt&0xFF != 0 {
+			put("opt:rtcp-per-packet-filter")
+		}
 	}
 	for _, m := range in.Members {
 		if m.Kind == 16 {
